@@ -1403,6 +1403,84 @@ func c01LatePayloadRun(ver protocol.ConsensusVersion, rnd *vRand, st *c01Stats, 
 	return s
 }
 
+// c01RestartCertRun: the family "crash-restart right after a bottom next vote" x "soft quorum delivered late" x
+// "partition that isolates the cert-voter(s)" x "heal after the others advanced a period".  N = 4, 5 equal
+// weights, no Byzantine sender, every threshold is reached by N-1 nodes.  Period 0: proposals and payloads arrive,
+// everybody soft-votes v, but the soft votes are held back; the deadline passes and everybody next-votes bottom;
+// then some (or all) nodes crash and restart from their crash database; only now the soft votes arrive.  The
+// network shows the cert votes of period 0 to ONE node (the victim) only and the next votes to everybody but the
+// victim; the others enter period 1 on the next quorum for bottom and finish with a fresh proposal; then the
+// partition heals.  A correct node has persisted its next vote (Step = next after the restart) and does not
+// cert-vote any more.
+func c01RestartCertRun(ver protocol.ConsensusVersion, rnd *vRand, st *c01Stats, k int) *c01Sim {
+	n := 4 + rnd.Intn(2)
+	stake := uint64(260)
+	if n == 5 {
+		stake = 200
+	}
+	cfg := c01Cfg{n: n, nb: 0, rounds: 1, r0: round(2 + rnd.Intn(30)), mode: "restartcert", w: map[string]int{"adv": 0}, crashes: 1}
+	for i := 0; i < n; i++ {
+		cfg.stake = append(cfg.stake, stake)
+		cfg.groups = append(cfg.groups, 0)
+	}
+	victim := rnd.Intn(n)
+	cfg.groups[victim] = 1
+	cfg.withhold = []c01Rule{
+		{class: "soft", group: 0, until: -1, per1: 1}, {class: "soft", group: 1, until: -1, per1: 1},
+		{class: "cert", group: 0, until: -1, per1: 1}, // the cert votes of period 0 reach the victim only
+		{class: "next", group: 0, until: -1, per1: 1}, {class: "next", group: 1, until: -1, per1: 1},
+		{class: "bundle", group: 1, until: -1},
+	}
+	s := c01NewSim(ver, rnd, cfg, st)
+	s.runIdx = k
+	s.quiesce()
+	for i := range s.nodes {
+		s.timeout(i) // filter: soft votes (held back by the network)
+	}
+	s.quiesce()
+	for i := range s.nodes {
+		s.timeout(i) // deadline: no soft quorum seen, next votes for bottom
+	}
+	s.quiesce()
+	// restart: everybody, or everybody but one
+	skip := -1
+	if rnd.Intn(3) == 0 {
+		skip = rnd.Intn(n)
+	}
+	for i := range s.nodes {
+		if i != skip {
+			s.crash(i)
+		}
+	}
+	s.quiesce()
+	// the soft votes arrive
+	s.cfg.withhold = s.cfg.withhold[2:]
+	s.quiesce()
+	// the next votes reach everybody but the victim: the others leave period 0
+	s.cfg.withhold = []c01Rule{s.cfg.withhold[0], {class: "next", group: 1, until: -1, per1: 1}, {class: "bundle", group: 1, until: -1}}
+	s.quiesce()
+	for rep := 0; rep < 6 && !s.allDone(); rep++ {
+		for i, nd := range s.nodes {
+			if i != victim && !nd.done {
+				s.timeout(i)
+			}
+		}
+		s.quiesce()
+	}
+	// heal
+	s.cfg.withhold = nil
+	s.quiesce()
+	for rep := 0; rep < 4 && !s.allDone(); rep++ {
+		for i, nd := range s.nodes {
+			if !nd.done {
+				s.timeout(i)
+			}
+		}
+		s.quiesce()
+	}
+	return s
+}
+
 // ---------------------------------------------------------------- synchronous phase (C05): virtual time
 
 func (s *c01Sim) popTimed() (c01Timed, bool) {
@@ -1838,6 +1916,9 @@ func TestVerifC01(t *testing.T) {
 		// directed family (light in the default stream, 1 run in 3 during the driver's violation search)
 		if (search && k%3 == 1) || (!search && k%20 == 7) {
 			s = c01LatePayloadRun(vers[k%len(vers)], rnd, st, k)
+			cfg = s.cfg
+		} else if (search && k%3 == 2) || (!search && k%20 == 13) {
+			s = c01RestartCertRun(vers[k%len(vers)], rnd, st, k)
 			cfg = s.cfg
 		} else {
 			cfg = c01RandomCfg(rnd, k, over)
